@@ -197,6 +197,20 @@ def run_cases(rng, tier, ifaces):
     return out
 
 
+SET_BYTES_ID = 46      # id of `SET:BYTES` in the echo interface (checked in big_block_cases)
+
+
+def big_block_cases(tier):
+    """definite-length blocks whose length does not fit 8 or 16 bits: delivered byte for byte"""
+    out = []
+    for n in ([255, 256, 65535, 65536, 70000] if tier == 'quick' else [255, 256, 257, 65535, 65536, 65537, 70000, 100000, 200000]):
+        payload = bytes((i * 7 + 3) % 251 for i in range(n))
+        for digits in sorted({len(str(n)), 9}):
+            text = b'SET:BYTES #' + str(digits).encode() + str(n).zfill(digits).encode() + payload + b'\n'
+            out.append(Case(f'RUN echo std {hx(text)}', run_oracle, {'log': [f'{SET_BYTES_ID}(bytes:{hx(payload)})'], 'errs': [], 'kind': 'RUN-bigblock'}))
+    return out
+
+
 def corpus_cases(ifaces):
     # D10: nine length digits
     return [Case(f'RUN echo std {hx(b"BLK #9000000001a" + bytes([10]))}', run_oracle, {'log': ['4(bytes:61)'], 'errs': [], 'kind': 'corpus-D10'}),
@@ -204,4 +218,4 @@ def corpus_cases(ifaces):
 
 
 def cases(tier, rng, ifaces):
-    return conv_cases(rng, tier) + run_cases(rng, tier, ifaces)
+    return conv_cases(rng, tier) + run_cases(rng, tier, ifaces) + big_block_cases(tier)
